@@ -352,7 +352,7 @@ def run(ctx):
                 "match, earliest rule on ties) and with the Lean model lexer. parser: every token sequence of up to "
                 "5 (quick) / 7 (thorough) tokens, capped at 4000 / 60000 sequences, over the whole 61-token vocabulary reachable as an "
                 "extension of a viable prefix, random sentences derived from the grammar's parser rules of growing "
-                "size, single-token deletions / insertions / substitutions / swaps of those, and expressions nested 30 / 100 / 150 (250) "
+                "size, single-token deletions / insertions / substitutions / swaps of those, every window of 1-3 tokens written twice, and expressions nested 30 / 100 / 150 (250) "
                 "levels deep through brackets, signs, powers, function calls and array indices; the verdict of the "
                 "shipped blackbirdParser fed the token sequence directly is compared with an Earley recogniser over "
                 "the grammar. extraction: the serialised ATNs the translator reads are what the modules hand to the "
@@ -401,6 +401,24 @@ def run(ctx):
             ctx.traces += 1
     for _k, t in texts[:3]:
         ctx.sample(t)
+    # words on which a rule's automaton and the rule's regular expression disagree, found by the certificate
+    # generator when a certificate does not close (none on a tree where the lexer ATN matches the grammar)
+    try:
+        cert = open(os.path.join(os.environ.get("VERIF_GEN_DIR") or os.path.join(core.LEAN_DIR, "Gen"), "ATNCert.lean"), encoding="utf-8").read()
+    except OSError:
+        cert = ""
+    for line in cert.splitlines():
+        if line.startswith("-- CEX lexer "):
+            parts = line.split()
+            word = "".join(chr(int(c)) for c in parts[4:] if 0 < int(c) < 0x110000)
+            ctx.count("lexer:certificate-counterexample")
+            for t in (word, word + " ", "x " + word, word + "(1)"):
+                ctx.case("L" + t, nontrivial=True)
+                msg = lexer_case(ref, t)
+                if msg:
+                    ctx.violation("lexer (word from the failed certificate of rule %s): %s" % (parts[3], msg),
+                                  {"kind": "lexer", "text": t})
+                    break
 
     # ---- parser
     seqs = []
@@ -430,6 +448,30 @@ def run(ctx):
                 seqs.append(("substitute", s[:p] + [ctx.rng.choice(terminals)] + s[p + 1:]))
             elif p + 1 < n:
                 seqs.append(("swap", s[:p] + [s[p + 1], s[p]] + s[p + 2:]))
+        # every window of one to three tokens written twice (what a `?` turned into a `*` in the rule code, or a
+        # loop that runs once too often, would accept): all positions for the first sentences, a sample later
+        if made <= ctx.n(40, 400) and n <= 60:
+            for w in (1, 2, 3):
+                for p in range(0, n - w + 1):
+                    seqs.append(("repeat", s[:p + w] + s[p:p + w] + s[p + w:]))
+        elif n:
+            for _ in range(3):
+                w = ctx.rng.choice([1, 2, 3])
+                p = ctx.rng.randrange(max(1, n - w + 1))
+                seqs.append(("repeat", s[:p + w] + s[p:p + w] + s[p + w:]))
+    # the token sequences of generated scripts (loops with two- and three-part ranges, shaped arrays, options, includes)
+    # with every window of one to three tokens written twice
+    import gen
+    for _ in range(ctx.n(25, 250)):
+        sc, _ = gen.gen_script(ctx.rng, {"depth": 1, "max_items": 4})
+        toks, _ = core.real_tokens(gen.render(sc))
+        s = [t[0] for t in toks]
+        seqs.append(("script", s))
+        n = len(s)
+        if n <= 80:
+            for w in (1, 2, 3):
+                for p in range(0, n - w):
+                    seqs.append(("repeat", s[:p + w] + s[p:p + w] + s[p + w:]))
     # deep nesting: the grammar has no bound on it (150 levels is far inside what the interpreter's stack allows)
     head = ["PROGNAME", "NAME", "NEWLINE", "VERSION", "FLOAT", "NEWLINE", "NAME", "LBRAC"]
     for d in (30, 100, ctx.n(150, 250)):
